@@ -187,7 +187,7 @@ def gen(prop, stream, tier, avoid):
                  {"op": "eval", "obj": b, "t": [kn.randint(0, 32) / 32.0 for _ in range(3)]},
                  {"op": "eval", "obj": b, "t": [1.0, 1.0, 1.0]},
                  {"op": "sample", "obj": b, "n": kn.randint(3, 6)}]
-        at = kn.randint(0, len(ops))
+        at = 0 if kn.chance(0.7) else kn.randint(0, len(ops))     # early: before other edits give the objects private lists
         ops = ops[:at] + motif + ops[at:]
     # ---- configuration vectors
     ncfg = kn.pick([2, 3, 3, 4, 5])
